@@ -3,39 +3,13 @@
   `[Scalar F]` (no law about the arithmetic is used, so they hold for the f64 semantics,
   NaN and ±∞ included).  Template for the other windowed indicators.
 -/
+import TaRs.Lemmas.Core.SimpleMovingAverage
 import TaRs.Gen.SimpleMovingAverage
 import TaRs.Lemmas.RsLemmas
 namespace TaRs.Gen.SimpleMovingAverage
 open TaRs TaRs.Rs
 
 variable {F : Type} [Scalar F]
-
-/-- the state `new(period)` builds -/
-def fresh (p : Nat) : SimpleMovingAverage F :=
-  { period := p, index := 0, count := 0, sum := Scalar.lit 0 0, deque := Array.replicate p (Scalar.lit 0 0) }
-
-/-- structural well-formedness: everything `next`/`reset` need in order not to panic -/
-structure WF (s : SimpleMovingAverage F) : Prop where
-  pos : 0 < s.period
-  small : s.period * 8 ≤ isizeMax
-  size : s.deque.size = s.period
-  idx : s.index < s.period
-  cnt : s.count ≤ s.period
-
-theorem new_eq (p : Nat) :
-    (new p : Res (SimpleMovingAverage F)) =
-      if p = 0 then .err .InvalidParameter
-      else if p * 8 ≤ isizeMax then .ok (fresh p) else .panic := by
-  unfold new
-  cases p with
-  | zero => rfl
-  | succ n =>
-    by_cases h : (n + 1) * 8 ≤ isizeMax
-    · simp [vecNew_eq _ _ h, h, fresh, bind, Res.bind]
-    · simp [vecNew_none _ _ (by omega : isizeMax < (n + 1) * 8), h, bind, Res.bind]
-
-theorem fresh_wf (p : Nat) (hp : 0 < p) (h8 : p * 8 ≤ isizeMax) : WF (fresh p : SimpleMovingAverage F) :=
-  ⟨hp, h8, by simp [fresh], hp, by simp [fresh]⟩
 
 /-- `next` never panics on a well-formed state, keeps it well-formed and keeps the period -/
 theorem next_total (s : SimpleMovingAverage F) (x : F) (h : WF s) :
@@ -50,7 +24,5 @@ theorem next_total (s : SimpleMovingAverage F) (x : F) (h : WF s) :
 theorem nextBar_eq (s : SimpleMovingAverage F) (b : Bar F) : s.nextBar b = s.next b.close := by
   unfold nextBar
   cases h : s.next b.close <;> simp [h]
-
-theorem period_fn_eq (s : SimpleMovingAverage F) : s.period_fn = s.period := rfl
 
 end TaRs.Gen.SimpleMovingAverage
